@@ -251,7 +251,8 @@ class Protocol:
         )
 
         code = 'receive-{}'.format(Message.CODE.short(msg_id))
-        self.peer.stats[code] += 1
+        # not every acceptable type has a counter from the start (OPERATIONAL has none)
+        self.peer.stats[code] = self.peer.stats.get(code, 0) + 1
         for_api = self._api.get(code, False)
 
         if for_api and packets and not consolidate:
